@@ -23,6 +23,9 @@ EVID = os.environ.get("VERIF_EVIDENCE_DIR", os.path.join(VERIF, "evidence"))    
 class Ob:
     def __init__(self, id, fn, timeout=60.0, per_path_timeout=None, desc="", group=None, expect_refuted=False,
                  refutation_only=False, api_replay_decides=False):
+        # generous floor: a timeout only matters when something is wrong, and a loaded machine must not turn a
+        # passing obligation into INCONCLUSIVE (refutation-only obligations keep their short budget)
+        timeout = timeout if refutation_only or expect_refuted else max(float(timeout), 300.0)
         self.id, self.fn, self.timeout, self.desc = id, fn, timeout, desc
         self.per_path_timeout = per_path_timeout if per_path_timeout is not None else max(10.0, timeout / 2)
         self.group = group or id.split("[")[0]
